@@ -76,7 +76,7 @@ def norm_value(tok):
 
 
 def parse_attrs(tok):
-    if tok == '-':
+    if tok in ('-', '~', '~c'):          # "~", "~c": the overloads taking no attributes (= the empty attribute set)
         return []
     out = []
     for kv in tok.split(','):
@@ -217,7 +217,10 @@ def rand_history(rng, nreaders, pool, flt_keys, nops, ncol_min):
             ops.append(f'col {rng.randrange(nreaders)}')
         else:
             base = rng.choice(pool)
-            ops.append(f'rec {attrs_tok(scramble(rng, base))} {rng.choice([1, 1, 2, 5, 100, rng.randrange(0, 1000)])}')
+            tok = attrs_tok(scramble(rng, base))
+            if rng.random() < 0.08:
+                tok = rng.choice(['~', '~c', '-'])      # the empty attribute set, through the attribute-less overloads too
+            ops.append(f'rec {tok} {rng.choice([1, 1, 2, 5, 100, rng.randrange(0, 1000)])}')
     for _ in range(ncol_min):
         ops.append(f'col {rng.randrange(nreaders)}')
     return ops
@@ -288,6 +291,11 @@ def corpus():
     c('attr eq 6100 6100=i64:1 61=i64:1', 'D11-key-with-NUL')
     c('attr eqg 6162 6162=i64:1 6162=i64:1', 'D11-unterminated-key')
     c('series storeg 4 6162 D rec 6162=i64:1 5 ; rec 6162=i64:2 6 ; col 0', 'D11-unterminated-key')
+    # the empty attribute set is one series whichever overload recorded it (no attributes / no attributes + context / empty list / all keys filtered)
+    c('series store 4 * D rec ~ 5 ; rec - 6 ; rec ~c 1 ; col 0', 'empty-set-overloads')
+    c('series sdk * C rec ~ 5 ; rec - 6 ; col 0 ; rec ~c 1 ; col 0', 'empty-set-overloads')
+    c('series sdk 6b D rec ~ 5 ; rec 61=i64:1 6 ; rec ~c 1 ; col 0', 'empty-set-overloads')
+    c('series store 4 6b CD rec 61=i64:1 2 ; rec ~ 5 ; col 0 ; rec - 1 ; col 1 ; col 0', 'empty-set-overloads')
     # D10a: the limit must survive the first Collect
     c('series store 3 * D recn 6b 0 9 1 ; col 0 ; recn 6b 0 9 1 ; col 0', 'D10a-limit-after-first-collect')
     # D10b: cumulative / multi-reader output stays within the configured limit
@@ -414,6 +422,15 @@ def check_series(t, out):
         if len(exp) < limit and OVF_SHOWN in pts and not explicit_ovf:
             return ('overflow-only-beyond-the-limit', f'{where}: {len(exp)} sets folded under limit {limit}')
     return None
+
+
+def model_line(case, out):
+    """the model has one way of recording the empty attribute set"""
+    return re.sub(r' rec ~c? ', ' rec - ', case.line)
+
+
+def agree(case, out, mout):
+    return out == mout
 
 
 def oracle(case, out):
